@@ -885,33 +885,25 @@ impl StorageEngine {
                     if len == 0 {
                         Vec::new()
                     } else {
-                        let start_idx = if start < 0 { 
-                            (len as isize + start).max(0) as usize
-                        } else {
-                            start as usize
-                        };
+                        // Redis' rule: negative indices count from the end, start is clamped
+                        // to 0, stop to len-1; the range is empty when start > stop or start >= len
+                        let len_i = len as isize;
+                        let start_i = (if start < 0 { len_i + start } else { start }).max(0);
+                        let stop_i = if stop < 0 { len_i + stop } else { stop };
                         
-                        let stop_idx = if stop < 0 {
-                            (len as isize + stop).max(0) as usize
+                        if start_i > stop_i || start_i >= len_i {
+                            Vec::new()
                         } else {
-                            stop as usize
-                        };
-                        
-                        if reverse {
-                            let real_start = len.saturating_sub(1).saturating_sub(stop_idx.min(len.saturating_sub(1)));
-                            let real_stop = len.saturating_sub(1).saturating_sub(start_idx.min(len.saturating_sub(1)));
+                            let start_idx = start_i as usize;
+                            let stop_idx = stop_i.min(len_i - 1) as usize;
                             
-                            let range = skiplist.range_by_rank(real_start, real_stop);
-                            let mut items = range.items;
-                            items.reverse();
-                            items
-                        } else {
-                            if start_idx >= len || start_idx > stop_idx {
-                                Vec::new()
+                            if reverse {
+                                // rank r of the reversed order is rank len-1-r of the stored order
+                                let range = skiplist.range_by_rank(len - 1 - stop_idx, len - 1 - start_idx);
+                                let mut items = range.items;
+                                items.reverse();
+                                items
                             } else {
-                                let start_idx = start_idx.min(len - 1);
-                                let stop_idx = stop_idx.min(len - 1);
-                                
                                 let range = skiplist.range_by_rank(start_idx, stop_idx);
                                 range.items
                             }
